@@ -95,8 +95,32 @@ func literalTemplates(full bool) (names []string, files map[string]string) {
 		add("\t<script>\n\tvar s = '" + strings.NewReplacer("'", "", "<", "", "{{", "", "`", "").Replace(t) + "';\n\tvar v = {{ a.S(\"s1\") }};\n\t</script>")
 		add("\t<pre>\nline " + strings.NewReplacer("{", "", "}", "", "<", "").Replace(t) + "\n  indented\r\nend</pre>{ a.S(\"s1\") }")
 	}
+	// files whose first / last literal begins / ends with (Unicode) white space, or is white space only: the text
+	// file's edges. One template per file, nothing before or after it.
+	alone := func(body string) {
+		if n%40 != 0 {
+			flush()
+		}
+		n = 0
+		before := len(names)
+		add(body)
+		if len(names) > before {
+			flush()
+		}
+		n = 0
+	}
+	for _, sp := range []string{" ", "\u00a0", "\u2003", "\u3000", "  "} {
+		alone("\t{ a.S(\"s1\") }" + sp + "tail")
+		alone("\thead" + sp + "{ a.S(\"s1\") }")
+		alone("\t{ a.S(\"s1\") }" + sp + "{ a.S(\"s2\") }")
+		alone("\t<b>{ a.S(\"s1\") }</b>" + sp + "{ a.S(\"s2\") }" + sp + "<i>x</i>" + sp + "{ a.S(\"s1\") }")
+	}
+	alone("\t{ a.S(\"s1\") }\n\t{ a.S(\"s2\") }")
+	alone("\t{ a.S(\"s1\") }")
 	add("\t<!DOCTYPE html>\n\t<html lang=\"en\"><body class=\"a b\">{ a.S(\"s1\") }<br/><input type=\"text\" value=\"q&quot;q\"/></body></html>")
-	flush()
+	if n%40 != 0 {
+		flush()
+	}
 	return
 }
 
